@@ -109,6 +109,22 @@ pub fn explore(ex: &Ex) {
         let slots: &[Item] = if arity >= 6 && ex.scale != Scale::Thorough { &tiny[..4] } else { &tiny };
         array_product(ex, &space, slots, arity, &|bytes, l| offer_all_types(ex, &space, bytes, tagged, l));
     }
+    // long lists of signatures / recipients with the faulty element first, in the middle, last
+    {
+        use gen::{arr, b, map};
+        let mut l = Local::default();
+        for n in [17usize, 40] {
+            for bad_at in [None, Some(0), Some(n / 2), Some(n - 1)] {
+                let sigs: Vec<Item> = (0..n).map(|k| if Some(k) == bad_at { gen::sig_bad_unprotected() } else if k % 2 == 0 { gen::sig_valid() } else { gen::sig_valid2() }).collect();
+                let recs: Vec<Item> = (0..n).map(|k| if Some(k) == bad_at { arr(vec![b(b""), map(vec![]), gen::u(1)]) } else { arr(vec![b(b""), map(vec![(gen::u(1), gen::i(-6))]), b(b"ct")]) }).collect();
+                l.state(n as u64);
+                offer_all_types(ex, "c09.long", &arr(vec![b(b""), map(vec![]), crate::refcbor::NULL, arr(sigs)]).det(), false, &mut l);
+                offer_all_types(ex, "c09.long", &arr(vec![b(b""), map(vec![]), b(b"x"), arr(recs.clone())]).det(), false, &mut l);
+                offer_all_types(ex, "c09.long", &arr(vec![b(b""), map(vec![]), b(b"p"), b(b"t"), arr(recs)]).det(), false, &mut l);
+            }
+        }
+        ex.rep.merge(l);
+    }
     // non-arrays
     let na = gen::non_arrays();
     par_partitions(ex.rep, na, |it, l| {
